@@ -11,17 +11,30 @@ import (
 
 // pkgFuncsWhere returns the top-level functions/methods of a package satisfying pred.
 func pkgFuncsWhere(p *an.Prog, rel string, pred func(*ssa.Function) bool) []*ssa.Function {
-	var out []*ssa.Function
-	for _, f := range p.PkgFuncs(rel) {
-		if f.Parent() == nil && pred(f) {
-			out = append(out, f)
+	scan := func() []*ssa.Function {
+		var out []*ssa.Function
+		for _, f := range p.PkgFuncs(rel) {
+			if f.Parent() == nil && pred(f) {
+				out = append(out, f)
+			}
+		}
+		return out
+	}
+	if an.InlineHelpers && !an.NoWiden {
+		// first the functions that have the construct themselves; only if there is none, those that have it via a helper
+		an.NoWiden = true
+		out := scan()
+		an.NoWiden = false
+		if len(out) > 0 {
+			return out
 		}
 	}
-	return out
+	return scan()
 }
 
 func one(fs []*ssa.Function) *ssa.Function {
 	if len(fs) == 1 {
+		an.Anchored[fs[0]] = true
 		return fs[0]
 	}
 	if an.InlineHelpers && len(fs) > 1 {
@@ -190,6 +203,13 @@ func peerIDDecodeObligations(c *an.Check) (dec, enc, ifb, epk, bd *ssa.Function,
 		if ok {
 			e, isE := uc[0].Call.Args[0].(*ssa.Extract)
 			ok = isE && e.Index == 1 && e.Tuple == ssa.Value(dc[0])
+			if !ok {
+				// through a local or a helper's result: the bytes parsed still derive from the digest half of that decode call
+				ok = p.DependsOn(uc[0].Call.Args[0], func(v ssa.Value) bool {
+					ex, isEx := v.(*ssa.Extract)
+					return isEx && ex.Index == 1 && ex.Tuple == ssa.Value(dc[0])
+				})
+			}
 		}
 		c.Require(ok, "PROVENANCE", "peer.ID.ExtractPublicKey parses the digest of its own ID", epk, "", len(uc)+len(dc), "UnmarshalPublicKey(decode([]byte(id)).digest)", "the key is not parsed from the digest of the receiver ID")
 	}
